@@ -74,7 +74,7 @@ class Generic(Case):
     name = 'C13.generic'
     uf_concrete = UFC
     bounds = ('HMAC over a stand-in hash (uninterpreted function per input length; block size 512 and 1024 bits, digest 16/20/32/64 bytes): '
-              'EVERY key length 0..2*blocksize+1 bytes, |M| in {0,1,blocksize}; key and message symbolic; histories on one object: setkey(K1);setkey(K2);mac - mac(K1);setkey(K2);mac - mac;mac (last result == fresh object)')
+              'EVERY key length 0..2*blocksize+1 bytes, |M| in {0,1,blocksize} (thorough: also blocksize-1, blocksize+1, 2*blocksize+3); key and message symbolic; histories on one object: setkey(K1);setkey(K2);mac - mac(K1);setkey(K2);mac - mac;mac (last result == fresh object)')
     stub_note = 'the hash is an uninterpreted function H_len: the obligation therefore holds for any deterministic hash with that block size'
 
     def shapes(self, tier):
@@ -83,7 +83,7 @@ class Generic(Case):
             for kl in kls:
                 if tier == 'quick' and ds in (16, 32, 48) and kl not in (0, 1, ds - 1, ds, ds + 1, bs - 1, bs, bs + 1, 2 * bs):
                     continue
-                for ml in ((1,) if tier == 'quick' and kl % 8 else (0, 1, bs)):
+                for ml in ((1,) if tier == 'quick' and kl % 8 else ((0, 1, bs) if tier == 'quick' else (0, 1, bs - 1, bs, bs + 1, 2 * bs + 3))):
                     yield dict(bs=bs, ds=ds, kl=kl, ml=ml)
             for k1, k2 in ((3, bs + 5), (bs + 5, 3), (bs, 0), (0, bs), (bs + 1, bs + 2)):
                 yield dict(bs=bs, ds=ds, kl=k2, ml=2, k1=k1)
